@@ -8,10 +8,11 @@
 
   * `*_safe` (per instance, by reflection): every reachable state of the instance — every schedule
     of every length — satisfies `ScopeV2.safe` (spelled out in `safe_spelled`).
-  * `*_quiet` (per instance): additionally the scope is never touched after its owner may have
-    destroyed it.
-  * `v2_two_joins_late_touch`: with two racing joins that last clause is FALSE for the code as it
-    is (witness schedule; replayed on the real code by harness/rt/scn_c08.cpp:v2_two_joins).
+    The instance theorems are about `safeQ` = `safe` ∧ `noLateTouch`: additionally the scope is
+    never touched by a completing operation after its owner may have destroyed it (every join
+    completed, every call on the scope returned).  (Before /repo commit 5b08c2e a second
+    `end_scope()` could set the event while the last operation still had to; the models follow the
+    fixed code: only the call that actually ends the scope sets the event.)
   * the parametric theorems (all N, all J, all schedules) are in the second half of the file.
 -/
 import UnifexModel.Proto.ScopeV2
@@ -73,25 +74,6 @@ theorem v2_race1_safe : ∀ s, Reach (sys cfgRace1) s → safeQ cfgRace1 s = tru
 
 theorem v2_late_nest_safe : ∀ s, Reach (sys cfgLateNest) s → safeQ cfgLateNest s = true :=
   safe_of_check _ { coded with M := 251 } 400 _ (by decide +kernel)
-
-/-- Two racing joins (the C08 clauses themselves hold: `C08_v2.v2_two_joins_safe`): the code as it is lets the last completing operation call `evt_.set()` after both joins
-    have completed and every call on the scope has returned (both `end_scope` calls and the last
-    `record_completion` decide to set the event; the second `end_scope` sees count 0 while the
-    completing operation is still between its `fetch_sub` and its `evt_.set()`).  The owner may
-    have destroyed the scope by then.  Witness: an explicit schedule. -/
-def twoJoinsWitness : List Nat := [0, 0, 0, 0, 0, 0, 1, 1, 1, 2, 2, 2, 0, 1, 0]
-
-theorem v2_two_joins_late_touch :
-    ∃ s, Reach (sys cfgTwoJoins) s ∧ noLateTouch s = false ∧ s.jdone = [1, 1] := by
-  have h : (match runChoices (sys cfgTwoJoins) (sys cfgTwoJoins).init twoJoinsWitness with
-      | some (_, s) => !noLateTouch s && decide (s.jdone = [1, 1]) | none => false) = true := by
-    decide +kernel
-  cases hr : runChoices (sys cfgTwoJoins) (sys cfgTwoJoins).init twoJoinsWitness with
-  | none => simp [hr] at h
-  | some p =>
-    obtain ⟨ls, s⟩ := p
-    simp only [hr, Bool.and_eq_true, decide_eq_true_eq, Bool.not_eq_true'] at h
-    exact ⟨s, runChoices_reach _ _ _ _ _ Reach.init hr, h.1, h.2⟩
 
 /-- non-vacuity: in `v2_race2` a final state is reachable in which both operations were admitted,
     started, completed and released and the join completed. -/
@@ -230,17 +212,22 @@ theorem join_fires_when_closed_and_zero {N J : Nat} {s : St} (h : Reach (sys N J
     · omega
   · exact ((hb.done_pc j).2.1) h7
 
-/-- With a single closer (one `end_scope` call in the whole life of the scope) a completing
-    operation never touches the scope after the join has completed: when the join receiver has
-    its completion no worker is still about to call `evt_.set()`.  (False for two closers:
-    `v2_two_joins_late_touch`, `C08_v1.v1_cleanup_late_touch`.) -/
-theorem single_join_no_late_touch {N : Nat} {s : St} (h : Reach (sys N 1) s)
-    (hd : 1 ≤ s.jdone 0) (i : Nat) : s.wpc i ≠ 7 := by
+/-- However many joins / end_scope calls race: once ANY join receiver has its completion, no worker
+    is still about to call `evt_.set()` — a completing operation never touches the scope after a
+    join has completed (the thread committed to setting the event is unique: the one `end_scope`
+    call that actually ended the scope with count 0, or else the last completing operation). -/
+theorem join_done_no_late_touch {N J : Nat} {s : St} (h : Reach (sys N J) s) (j : Nat)
+    (hd : 1 ≤ s.jdone j) (i : Nat) : s.wpc i ≠ 7 := by
   intro h7
-  have hs := (invA h).done_sig 0 hd
+  have hs := (invA h).done_sig j hd
   have := ((invD h).claim i h7).1
   rw [hs] at this
   cases this
+
+/-- At most one thread is ever committed to setting the event at a time, and none once it is set. -/
+theorem evt_setter_unique {N J : Nat} {s : St} (h : Reach (sys N J) s) (i : Nat) (h7 : s.wpc i = 7) :
+    s.sig = false ∧ (∀ j, s.jpc j ≠ 2) ∧ (∀ i', s.wpc i' = 7 → i' = i) :=
+  ⟨((invD h).claim i h7).1, ((invD h).claim i h7).2, fun i' h' => (invD h).uniq i' i h' h7⟩
 
 /-- non-vacuity of the parametric model: with one worker and one joiner a state is reachable in
     which the worker was admitted, ran and released, and the join completed. -/
